@@ -17,6 +17,7 @@ import (
 	"pgregory.net/rapid"
 
 	"verifharness/ev"
+	"verifharness/model"
 )
 
 func TestMain(m *testing.M) { ev.Main(m) }
@@ -78,7 +79,23 @@ func propAuth(t *rapid.T) {
 	reqPath := "/p"
 	onlyGate := false // the route may carry the gate alone, without the "after" middleware
 	mw := func(n string) rux.HandlerFunc {
-		return func(c *rux.Context) { trace = append(trace, "enter "+n); c.Next(); trace = append(trace, "leave "+n) }
+		return func(c *rux.Context) {
+			trace = append(trace, "enter "+n)
+			_, _, _ = c.Length(), c.StatusCode(), c.IsAborted() // an access log reads these around the rest of the chain
+			c.Next()
+			_, _, _ = c.Length(), c.StatusCode(), c.IsAborted()
+			trace = append(trace, "leave "+n)
+		}
+	}
+	// once the route is there the application tries to hang far too many middleware on it: refused as a whole, it recovers
+	tooMany := func(rt *rux.Route) {
+		model.TryCall(func() {
+			many := make([]rux.HandlerFunc, 70)
+			for i := range many {
+				many[i] = func(c *rux.Context) { c.Next() }
+			}
+			rt.Use(many...)
+		})
 	}
 	auth := handlers.HTTPBasicAuth(accounts)
 	// something earlier in the chain may already have started the response (a banner, a streaming prelude):
@@ -97,9 +114,9 @@ func propAuth(t *rapid.T) {
 	switch pos {
 	case 0:
 		r.Use(auth)
-		r.GET("/p", main, mw("after"))
+		tooMany(r.GET("/p", main, mw("after")))
 	case 1:
-		r.GET("/p", main, mw("before"), auth, mw("after"))
+		tooMany(r.GET("/p", main, mw("before"), auth, mw("after")))
 	case 2:
 		r.Group("/", func() { r.GET("/p", main, mw("after")) }, mw("before"), auth)
 	default:
